@@ -347,6 +347,7 @@ def oracle(case) -> list[dict]:
 
     {"status": "ok", "mro": [indices, nearest first, self excluded], "attrs": {name: [definer, kind]}}
     {"status": "err", "why": ERR_*}
+    every entry also has "built": whether CPython (external bases included) could create the class
     {"status": "skip", "why": ...}   the external bases change what CPython computes for the loaded classes
                                      (order or consistency): Griffe cannot see them, outside the checked domain
     """
@@ -367,17 +368,17 @@ def oracle(case) -> list[dict]:
         with_ = ("err",) if status[i] is not None else ("ok", tuple(restricted(classes[i])))
         without = ("err",) if status0[i] is not None else ("ok", tuple(restricted(classes0[i])))
         if with_ != without:
-            out.append({"status": "skip", "why": "external-bases-change-" + ("consistency" if with_[0] != without[0] else "order")})
+            out.append({"status": "skip", "why": "external-bases-change-" + ("consistency" if with_[0] != without[0] else "order"), "built": status[i] is None})
             continue
         if status[i] is not None:
-            out.append({"status": "err", "why": status[i]})
+            out.append({"status": "err", "why": status[i], "built": False})
             continue
         attrs = {}
         for name in NAMES:
             found = _lookup(classes[i], name)
             if found is not None:
                 attrs[name] = list(found)
-        out.append({"status": "ok", "mro": list(with_[1]), "attrs": attrs})
+        out.append({"status": "ok", "mro": list(with_[1]), "attrs": attrs, "built": True})
     return out
 
 
